@@ -44,6 +44,8 @@ def run(ctx):
     r = vlib.run_tlc(ctx, "ChannelId", "ChannelIdMC.cfg" if q else "ChannelIdMCBig.cfg", workers=16, timeout=3000, heap="24g")
     if r.violated:
         ctx.notes["model_counterexample"] = {"invariant": r.violated, "cfg": [st.get("cfg") for st in r.error_trace][-1:]}
+    rk = vlib.run_tlc(ctx, "ChannelId", "ChannelIdKeepGroups.cfg", workers=4, timeout=600)
+    ctx.notes["model_design_variant_keep_groups"] = {"violated": rk.violated, "meaning": "without the reset of the group list at the top of PrepareChannels a second call on the same object (Start retried after a failure behind PrepareChannels) reports every group twice"}
     rng = random.Random(ctx.seed + 19)
     scens = enumerate_lancero(q, rng) + enumerate_abaco()
     scens += [{"kind": k, "origin": "enumerated", "nchan": n} for k in ("roach", "simple") for n in (1, 2, 7, 64)]
@@ -66,6 +68,8 @@ def run(ctx):
     for v in viols:
         e = events[v["line"] - 1]
         sig = {"predicate": v["predicate"], "kind": e["kind"]}
+        if e.get("origin", "").endswith("/again"):
+            sig["history"] = "second PrepareChannels on the same object"
         vlib.report_violation(ctx, sig, {"config": e.get("cfg"), "kind": e["kind"], "table": e["table"][:40], "groups": e["groups"]})
     return vlib.finish(ctx, LEVEL,
                        "case = one source configuration (Lancero: active device numbers, geometry per device, first-row number, card and column separations incl. 0 / negative / too small; Abaco: group layouts incl. overlaps and holes; Roach / simulated: channel count); distinct by hash; non-trivial = accepted with more than two data streams",
